@@ -46,6 +46,11 @@ u64 ti_skip(TImpl* t, u64 n) { return t->core_timing.Skip(n); }
 void ti_call_handler(std::function<void()>* f) { (*f)(); }
 RegisterState* ti_regs(TImpl* t) { return &t->processor.GetRegisterState(); }
 size_t ti_sizeof() { return sizeof(TImpl); }
+// container-typed hidden state (C17): direct construction of a dirty state and size/front observers
+void ti_ahbm_push(TImpl* t, unsigned ch, u32 v) { t->ahbm.channels[ch].burst_queue.push(v); }
+u64 ti_ahbm_qsize(TImpl* t, unsigned ch) { return t->ahbm.channels[ch].burst_queue.size(); }
+void ti_btdmp_push(TImpl* t, unsigned i, u16 v) { t->btdmp[i].transmit_queue.push(v); }
+u64 ti_btdmp_qsize(TImpl* t, unsigned i) { return t->btdmp[i].transmit_queue.size(); }
 #ifdef NATIVE_TWIN
 TImpl* tn_new() { return new TImpl(nullptr); }
 // schedule replay: the k-th pthread_mutex_lock of the calling thread (counted from tn_set_hook) first runs a hook - the
